@@ -196,7 +196,7 @@ def print_assumptions(prop_v, make_output_hint=None):
             cur = True
             continue
         if cur:
-            m = re.match(r"^([A-Za-z_][A-Za-z0-9_.']*)\s*:", line)
+            m = re.match(r"^([A-Za-z_][A-Za-z0-9_.']*)\s*(:|$)", line)
             if m:
                 axioms.add(m.group(1))
             elif line.startswith(" ") or line == "":
